@@ -748,6 +748,10 @@ class BinaryOp(Expr):
             Operator.EXP: lambda a, b: limit(a ** b),
         }[self.op](left, right)
 
+        if self.type == Type.SINGLE:
+            # a SINGLE result has single precision, like at run time
+            result = self.type.coerce(result)
+
         return result
 
     def _eval_string(self):
